@@ -41,6 +41,11 @@ func (f *Producer) OpenDB(name string) (kvdb.Store, error) {
 		DropFn: func() {
 			f.mu.Lock()
 			delete(f.dbs, name)
+			// the drop takes effect before the next flush: flag the remaining databases as dirty
+			// first, so that a crash in between is not mistaken for the previous clean state
+			for _, other := range f.dbs {
+				_ = other.modified()
+			}
 			f.mu.Unlock()
 			_ = db.Close()
 			db.Drop()
